@@ -773,7 +773,7 @@ class C04:
         t = norm(d)
         if t.startswith("re.escape("):
             return True
-        if fn.name == "convert_regex" and isinstance(d, ast.Call) and dotted(d.func) == "set" and len(d.args) == 1 and isinstance(d.args[0], ast.Name):
+        if fn is self.repo.hyperscan_converter() and isinstance(d, ast.Call) and dotted(d.func) == "set" and len(d.args) == 1 and isinstance(d.args[0], ast.Name):
             # members of a character class drawn from `[c for c in regex if len(c.encode('utf8')) > 1]`: non-ASCII characters only,
             # none of which is a metacharacter inside [...]
             return any(isinstance(s, ast.Assign) and norm(s.targets[0]) == d.args[0].id and isinstance(s.value, ast.ListComp) and s.value.generators[0].ifs
@@ -885,7 +885,7 @@ class C04:
                             and norm(x.targets[0] if isinstance(x, ast.Assign) else x.target) == name]
                 if "json.dumps" in src or (isinstance(recv, ast.Name) and any("json.dumps" in norm(v) for v in _defs(recv.id))):
                     not_input = "json.dumps output (ensure_ascii default: pure ASCII)"
-                elif q.startswith("tokenizers.HyperscanTokenizer.hyperscan_db"):
+                elif q.startswith("tokenizers.HyperscanTokenizer.hyperscan_db") or fn is self.repo.hyperscan_converter():
                     not_input = "an extractor pattern / its repr (built from self.extractors), not document text"
                 if c.func.attr == "encode":
                     ok = handler in safe_handlers or not_input is not None or in_try
